@@ -154,6 +154,119 @@ L2Wrap(N, cons, x, ns, ln) ==
             ELSE LET a == L2Append(N1, cons, w, x) IN L2Out(a.res, a.n, IF a.res = "ok" THEN w ELSE 0)
 
 -----------------------------------------------------------------------------
+(* remove_insignificant_whitespace (src/unpretty.rs): collect, then take    *)
+(* each text node out with the raw arena removal.  (The pinned code used    *)
+(* the public, consolidating remove: with RawRemoveSplice replaced by       *)
+(* L2Remove below, TLC reports L2MovesRefine violated at MaxNode = 4 - three *)
+(* adjacent whitespace text nodes, consolidation switched on again, the     *)
+(* call made on the middle one: its neighbours are merged.  Repaired.)      *)
+
+L2IsWs(t) == \A j \in 1..Len(t) : t[j] \in {32, 9, 13, 10}
+L2SignificantText(N, i) == N[i].k = "text" /\ ~L2IsWs(N[i].t)
+RECURSIVE L2InPreserve(_, _, _)
+L2InPreserve(N, i, fuel) ==                                  \* nearest xml:space on an ancestor-or-self decides
+    LET hits == IF N[i].k = "elem" THEN {a \in SeqRange(AttrKids(N, i)) : N[a].ns = XmlNs /\ N[a].ln = "space"} ELSE {} IN
+    IF hits # {} THEN N[CHOOSE a \in hits : TRUE].t = PreserveCps
+    ELSE IF fuel = 0 \/ N[i].p = 0 THEN FALSE ELSE L2InPreserve(N, N[i].p, fuel - 1)
+L2Insignificant(N, i) ==
+    /\ N[i].k = "text"
+    /\ ~L2InPreserve(N, i, Len(N))
+    /\ L2IsWs(N[i].t)
+    /\ LET pv == PrevSib(N, i) IN pv = 0 \/ ~\E s \in SeqRange(PrecedingSiblings(N, pv)) : L2SignificantText(N, s)
+    /\ LET nx == NextSib(N, i) IN nx = 0 \/ ~\E s \in SeqRange(FollowingSiblings(N, nx)) : L2SignificantText(N, s)
+RECURSIVE L2RemoveAll(_, _, _, _)
+L2RemoveAll(N, cons, s, j) == IF j > Len(s) THEN N ELSE L2RemoveAll(RawRemoveSplice(N, s[j]), cons, s, j + 1)
+L2Riw(N, cons, x) == L2RemoveAll(N, cons, SelectSeq(Descendants(N, x), LAMBDA y : L2Insignificant(N, y)), 1)
+
+-----------------------------------------------------------------------------
+(* src/nodemap: the attribute and namespace views are runs of the element's *)
+(* raw child list (take_while namespace; skip_while namespace, take_while   *)
+(* attribute); a new entry is linked after the adapter's insertion point    *)
+
+RECURSIVE TakeWhileK(_, _, _, _)
+TakeWhileK(N, c, j, kind) == IF j > Len(c) \/ N[c[j]].k # kind THEN <<>> ELSE <<c[j]>> \o TakeWhileK(N, c, j + 1, kind)
+L2MapChildren(N, e, which) ==
+    LET c == N[e].c  nsrun == TakeWhileK(N, c, 1, "nsn") IN
+    IF which = "nsn" THEN nsrun ELSE TakeWhileK(N, c, Len(nsrun) + 1, "attr")
+L2InsertionPoint(N, e, which) ==
+    LET own == L2MapChildren(N, e, which) IN
+    IF own # <<>> THEN own[Len(own)]
+    ELSE IF which = "attr" THEN (LET ns == TakeWhileK(N, N[e].c, 1, "nsn") IN IF ns # <<>> THEN ns[Len(ns)] ELSE 0)
+    ELSE 0
+L2KeyOf(N, i) == IF N[i].k = "attr" THEN <<N[i].ns, N[i].ln>> ELSE <<"", N[i].ln>>
+L2GetNode(N, e, which, key) ==
+    LET own == L2MapChildren(N, e, which)
+        hits == {j \in 1..Len(own) : L2KeyOf(N, own[j]) = key}
+    IN IF hits = {} THEN 0 ELSE own[CHOOSE j \in hits : \A q \in hits : j <= q]        \* find: the first
+L2Link(N, e, which, x) ==
+    LET ip == L2InsertionPoint(N, e, which) IN
+    IF ip # 0 THEN RawInsertAfter(N, ip, x) ELSE RawPrepend(N, e, x)
+\* MutableNodeMap::insert
+L2MapInsert(N, e, which, key, t, u) ==
+    LET hit == L2GetNode(N, e, which, key) IN
+    IF hit # 0 THEN (IF which = "attr" THEN [N EXCEPT ![hit].t = t] ELSE [N EXCEPT ![hit].u = u])
+    ELSE LET nd == IF which = "attr" THEN [k |-> "attr", p |-> 0, c |-> <<>>, ns |-> key[1], ln |-> key[2], t |-> t, u |-> "", d |-> FALSE]
+                   ELSE [k |-> "nsn", p |-> 0, c |-> <<>>, ns |-> "", ln |-> key[2], t |-> <<>>, u |-> u, d |-> FALSE]
+         IN L2Link(Append(N, nd), e, which, Len(N) + 1)
+\* MutableNodeMap::remove (through the public, consolidating Xot::remove)
+L2MapRemove(N, cons, e, which, key) ==
+    LET hit == L2GetNode(N, e, which, key) IN IF hit = 0 THEN N ELSE L2Remove(N, cons, hit)
+\* MutableNodeMap::insert_node behind append_attribute_node / append_namespace_node
+L2AppendMapNode(N, e, x, which) ==
+    IF N[e].k # "elem" \/ N[x].k # which THEN L2Out("err", N, 0)
+    ELSE LET hit == L2GetNode(N, e, which, L2KeyOf(N, x)) IN
+         IF hit # 0 THEN L2Out("ok", IF which = "attr" THEN [N EXCEPT ![hit].t = N[x].t] ELSE [N EXCEPT ![hit].u = N[x].u], hit)
+         ELSE L2Out("ok", L2Link(N, e, which, x), x)
+
+-----------------------------------------------------------------------------
+(* clone_node: replay of the all_traverse edges of the source under a       *)
+(* temporary top (a dummy element with the same name, or the new document)  *)
+(* with any_append - so text is consolidated as it is appended - and the    *)
+(* temporary element spliced out at the end; clone_with_prefixes then       *)
+(* inserts the inherited prefixes the clone's element does not declare      *)
+
+CopyOf(nd) == [nd EXCEPT !.p = 0, !.c = <<>>]
+L2AnyAppend(N, cons, q, y) ==
+    IF N[y].k = "nsn" THEN L2AppendMapNode(N, q, y, "nsn")
+    ELSE IF N[y].k = "attr" THEN L2AppendMapNode(N, q, y, "attr")
+    ELSE L2Append(N, cons, q, y)
+RECURSIVE CloneRun(_, _, _, _, _, _)
+\* S: the source forest (never changes while copying: new nodes are appended beyond it), st = [n, cur, ok]
+CloneRun(S, cons, edges, j, st, fuel) ==
+    IF j > Len(edges) \/ ~st.ok THEN st
+    ELSE LET ed == edges[j] IN
+         IF ed > 0 THEN
+             IF S[ed].k = "doc" THEN CloneRun(S, cons, edges, j + 1, st, fuel)
+             ELSE LET new == Len(st.n) + 1
+                      n1 == Append(st.n, CopyOf(S[ed]))
+                      a == L2AnyAppend(n1, cons, st.cur, new)
+                  IN CloneRun(S, cons, edges, j + 1,
+                              [n |-> a.n, cur |-> IF S[ed].k = "elem" THEN new ELSE st.cur, ok |-> a.res = "ok"], fuel)
+         ELSE IF S[0 - ed].k # "elem" THEN CloneRun(S, cons, edges, j + 1, st, fuel)
+         ELSE CloneRun(S, cons, edges, j + 1, [st EXCEPT !.cur = st.n[st.cur].p], fuel)
+L2CloneNode(N, cons, x) ==
+    IF N[x].k \notin {"doc", "elem"} THEN [n |-> Append(N, CopyOf(N[x])), ret |-> Len(N) + 1, ok |-> TRUE]
+    ELSE LET top == Len(N) + 1
+             N0 == Append(N, IF N[x].k = "doc" THEN CopyOf(N[x])
+                             ELSE [k |-> "elem", p |-> 0, c |-> <<>>, ns |-> N[x].ns, ln |-> N[x].ln, t |-> <<>>, u |-> "", d |-> FALSE])
+             r == CloneRun(N, cons, AllTraverse(N, x), 1, [n |-> N0, cur |-> top, ok |-> TRUE], Len(N))
+         IN IF N[x].k = "elem"
+            THEN [n |-> RawRemoveSplice(r.n, top), ret |-> FirstChild(r.n, top), ok |-> r.ok /\ FirstChild(r.n, top) # 0]
+            ELSE [n |-> r.n, ret |-> top, ok |-> r.ok]
+
+\* what the harness can see of the result: slots allocated during the call and freed again are never observed
+Compact(n0, P) ==
+    LET keep == SelectSeq([i \in 1..Len(P) |-> i], LAMBDA i : i <= n0 \/ P[i].k # "rm")
+        newid(i) == IF i = 0 THEN 0 ELSE Pos(keep, i)
+    IN [j \in 1..Len(keep) |->
+          LET nd == P[keep[j]] IN [nd EXCEPT !.p = newid(nd.p), !.c = [q \in 1..Len(nd.c) |-> newid(nd.c[q])]]]
+CompactId(n0, P, i) == Pos(SelectSeq([q \in 1..Len(P) |-> q], LAMBDA q : q <= n0 \/ P[q].k # "rm"), i)
+
+L2CloneRefinesAt(N, cons, x) ==
+    LET r == L2CloneNode(N, cons, x) IN
+    r.ok /\ CloneOk(N, cons, x, Compact(Len(N), r.n), CompactId(Len(N), r.n, r.ret))
+
+-----------------------------------------------------------------------------
 (* comparison with L1                                                       *)
 
 L2Of(e, N, cons) ==
@@ -167,10 +280,23 @@ L2Of(e, N, cons) ==
       [] e.op = "remove" -> L2Out("ok", L2Remove(N, cons, x), 0)
       [] e.op = "element_unwrap" -> L2Unwrap(N, cons, x)
       [] e.op = "element_wrap" -> L2Wrap(N, cons, x, e.ns, e.ln)
-L2Ops == {"append", "prepend", "insert_after", "insert_before", "replace", "detach", "remove", "element_unwrap", "element_wrap"}
+      [] e.op = "riw" -> L2Out("ok", L2Riw(N, cons, x), 0)
+      [] e.op = "set_attribute" -> L2Out("ok", L2MapInsert(N, x, "attr", <<e.ns, e.ln>>, e.s, ""), 0)
+      [] e.op = "remove_attribute" -> L2Out("ok", L2MapRemove(N, cons, x, "attr", <<e.ns, e.ln>>), 0)
+      [] e.op = "set_namespace" -> L2Out("ok", L2MapInsert(N, x, "nsn", <<"", e.px>>, <<>>, e.uri), 0)
+      [] e.op = "remove_namespace" -> L2Out("ok", L2MapRemove(N, cons, x, "nsn", <<"", e.px>>), 0)
+      [] e.op = "append_attribute_node" -> L2AppendMapNode(N, x, y, "attr")
+      [] e.op = "append_namespace_node" -> L2AppendMapNode(N, x, y, "nsn")
+      [] e.op = "any_append" ->
+             IF N[y].k = "nsn" THEN L2AppendMapNode(N, x, y, "nsn")
+             ELSE IF N[y].k = "attr" THEN L2AppendMapNode(N, x, y, "attr")
+             ELSE LET a == L2Append(N, cons, x, y) IN L2Out(a.res, a.n, IF a.res = "ok" THEN y ELSE 0)
+L2Ops == {"append", "prepend", "insert_after", "insert_before", "replace", "detach", "remove", "element_unwrap", "element_wrap", "riw",
+          "set_attribute", "remove_attribute", "set_namespace", "remove_namespace", "append_attribute_node", "append_namespace_node", "any_append"}
 
 \* the code's outcome is one L1 allows
 L2Allowed(e, N, cons) ==
     LET o == L2Of(e, N, cons) IN
-    \E a \in EnumAllowed(e, N, cons) : a.res = o.res /\ a.n = o.n /\ (e.op = "element_wrap" => a.ret = o.ret)
+    \E a \in EnumAllowed(e, N, cons) :
+        a.res = o.res /\ a.n = o.n /\ (e.op \in {"element_wrap", "append_attribute_node", "append_namespace_node", "any_append"} => a.ret = o.ret)
 =============================================================================
